@@ -368,6 +368,7 @@ class Zeroconf(QuietLogger):
         """Registers service information to the network with a default TTL.
         Zeroconf will then respond to requests for information for that
         service."""
+        info.set_server_if_missing()
         replaced = self.registry.async_get_info_name(info.key)
         self.registry.async_update(info)
         if replaced is not None and replaced is not info:
